@@ -138,6 +138,21 @@ Theorem C08_pick_noapply_copies :
 Proof. exact pick_noapply_copies. Qed.
 Print Assumptions C08_pick_noapply_copies.
 
+(* `stg refresh -p <patch>` (outside [manip]: it may leave its temporary patch behind - when the
+   change does not apply to an unapplied target, status 0, or when pushing it conflicts, status
+   3): whatever its status, every patch that existed before still carries ITS OWN identity, and a
+   patch that did not exist before is the temporary patch with the identity (0, "Refresh of <pn>") *)
+From StgV Require Import Proofs.RefreshIdent.
+Theorem C08_refresh_p_identity :
+  forall lower_s, LowerOK lower_s ->
+  forall w p w' x n o',
+    Inv w -> step lower_s w (CRefresh (Some p)) = (w', x) -> patch_commit w' n = Some o' ->
+    (exists o, patch_commit w n = Some o /\ ident_of (w_objs w') o' = ident_of (w_objs w) o)
+    \/ (patch_commit w n = None
+        /\ exists pn, ident_of (w_objs w') o' = Some (0%N, s_refresh_of ++ pn)).
+Proof. exact refresh_p_identity. Qed.
+Print Assumptions C08_refresh_p_identity.
+
 From StgV Require Import Model.Encoding Proofs.EncodingProofs.
 Local Open Scope N_scope.
 
